@@ -299,6 +299,66 @@ def rule_branches(ctx):
     ctx.require_min(R, 5)
 
 
+def rule_aggregation(ctx):
+    """structure of the aggregation itself: several elements at one bus, the fast slack shortcut, the four ZIP columns"""
+    import ast
+    from rules import _lints
+    from rules.C03 import rule_shortcut_guard
+    from ppsa.astutil import norm
+    R = "ACCUMULATE"
+    ctx.rule(R, "contributions of several elements at one bus are summed: every in-place add into ppc['bus'][idx, GS|BS|PD|QD] uses "
+                "the unique group key returned by _sum_by_group (numpy's fancy-index += keeps only the last of repeated indices)")
+    fis = [ctx.repo.func(f"pandapower.build_bus:{f}") for f in ("_calc_shunts_and_add_on_ppc", "_add_ext_grid_sc_impedance",
+                                                                  "_add_motor_impedances_ppc", "_add_load_sc_impedances_ppc")]
+    n = _lints.accumulate_unique(ctx, R, fis)
+    if n < 4:
+        ctx.fail(f"ACCUMULATE: only {n} in-place adds into the bus matrix found")
+    # plain stores of the aggregated demand use the group key as well
+    fi = ctx.repo.func("pandapower.build_bus:_calc_pq_elements_and_add_on_ppc")
+    uniq = _lints._bound_from_sum_by_group(fi.node)
+    for st in ast.walk(fi.node):
+        if isinstance(st, ast.Assign) and isinstance(st.targets[0], ast.Subscript) and isinstance(st.targets[0].slice, ast.Tuple) \
+                and len(st.targets[0].slice.elts) == 2 and isinstance(st.targets[0].slice.elts[1], ast.Name) \
+                and st.targets[0].slice.elts[1].id in ("PD", "QD", "DC_PD"):
+            idx = st.targets[0].slice.elts[0]
+            ok = isinstance(idx, ast.Name) and idx.id in uniq
+            ctx.ob(R, f"pandapower.build_bus::_calc_pq_elements_and_add_on_ppc::{norm(st.targets[0], 50)}", ok,
+                   "bus demand is stored per unique bus of the grouped sum" if ok else
+                   f"`{norm(st, 70)}` stores per-element values at a non-unique bus index: elements sharing a bus overwrite each other", fi.loc(st))
+    rule_shortcut_guard(ctx)
+    # the four ZIP coefficient columns are computed in the same way
+    R2 = "ZIP-SIBLING"
+    ctx.rule(R2, "the per-bus ZIP coefficients CID_P, CZD_P, CID_Q, CZD_Q are four instances of one formula (mean over the active "
+                 "loads of the bus of the matching const_*_percent column / 100): they must agree up to the column name")
+    want = {"CID_P": "const_i_p_percent", "CZD_P": "const_z_p_percent", "CID_Q": "const_i_q_percent", "CZD_Q": "const_z_q_percent"}
+    defs = {}
+    for st in ast.walk(fi.node):
+        if isinstance(st, ast.Assign) and isinstance(st.targets[0], ast.Name):
+            defs[st.targets[0].id] = st.value
+    forms = {}
+    for st in ast.walk(fi.node):
+        if isinstance(st, ast.Assign) and isinstance(st.targets[0], ast.Subscript) and isinstance(st.targets[0].slice, ast.Tuple) \
+                and isinstance(st.targets[0].slice.elts[-1], ast.Name) and st.targets[0].slice.elts[-1].id in want:
+            col = st.targets[0].slice.elts[-1].id
+            txt = norm(st.value, 400)
+            for nm in sorted({n.id for n in ast.walk(st.value) if isinstance(n, ast.Name)}, key=len, reverse=True):
+                if nm in defs and nm.endswith("_sum"):
+                    txt = txt.replace(nm, "(" + norm(defs[nm], 400) + ")")
+            forms[col] = (txt.replace(want[col], "<COL>"), st, want[col] in txt)
+    if set(forms) != set(want):
+        ctx.fail(f"ZIP-SIBLING: stores of the ZIP coefficient columns not found ({sorted(forms)})")
+    ref = {}
+    for col, (txt, st, has) in forms.items():
+        ref.setdefault(txt, []).append(col)
+    major = max(ref.values(), key=len)
+    for col, (txt, st, has) in sorted(forms.items()):
+        ok = col in major and has and len(major) >= 3
+        ctx.ob(R2, f"pandapower.build_bus::_calc_pq_elements_and_add_on_ppc::{col}", ok,
+               f"{col} = mean of {want[col]}/100 over the active loads of the bus, like its siblings" if ok else
+               f"{col} is computed as `{txt}` while its siblings {major} use `{[k for k, v in ref.items() if v is major][0]}`"
+               + ("" if has else f" and does not read {want[col]}"), fi.loc(st))
+
+
 def run(ctx):
     ctx.assume("decides structural necessary conditions of nodal balance (term sets, signs, factors, voltage "
                "degrees), not the numerical balance of a converged solution")
@@ -309,6 +369,7 @@ def run(ctx):
     rule_zip_weight(ctx, None)
     rule_pfsoln(ctx)
     rule_branches(ctx)
+    rule_aggregation(ctx)
 
 
 def variants(repo):
@@ -316,6 +377,16 @@ def variants(repo):
     rb = "pandapower/results_bus.py"
     ms = "pandapower/pypower/makeSbus.py"
     return [
+        Variant("ext grid admittance with repeated bus index", bb, in_function("_add_ext_grid_sc_impedance",
+                lambda s: s.replace('ppc["bus"][buses, GS] += gs * ppc[\'baseMVA\']', 'ppc["bus"][eg_buses_ppc, GS] += y_grid.real * ppc[\'baseMVA\']', 1)), "ACCUMULATE"),
+        Variant("demand stored per element", bb, in_function("_calc_pq_elements_and_add_on_ppc",
+                replace_once('        b, vp, vq = _sum_by_group(b, p, q)\n', '        vp, vq = p, q\n')), "ACCUMULATE"),
+        Variant("zip coefficient not averaged", bb, in_function("_calc_pq_elements_and_add_on_ppc",
+                replace_once("CZD_Q] = cz_q_sum / no_loads", "CZD_Q] = cz_q_sum")), "ZIP-SIBLING"),
+        Variant("zip q coefficient from p column", bb, in_function("_calc_pq_elements_and_add_on_ppc",
+                replace_once('cz_q_sum = sum(tab["const_z_q_percent"][mask] / 100.)', 'cz_q_sum = sum(tab["const_z_p_percent"][mask] / 100.)')), "ZIP-SIBLING"),
+        Variant("shortcut with conductance shunts", "pandapower/pf/run_newton_raphson_pf.py",
+                replace_once('shunt_in_net = any(ppci["bus"][:, BS]) or any(ppci["bus"][:, GS])', 'shunt_in_net = any(ppci["bus"][:, BS])'), "SHORTCUT-GUARD"),
         Variant("drop scaling in demand", bb, in_function("_calc_pq_elements_and_add_on_ppc",
                 replace_once('tab["p_mw"].values * active * scaling * sign', 'tab["p_mw"].values * active * sign')),
                 "BALANCE-TERMS"),
